@@ -128,7 +128,7 @@ fn extract_players(server_vars: &mut HashMap<String, String>, players_maximum: u
             _x => true, // println!("UNKNOWN {id} {x} {value}");
         };
 
-        if early_return {
+        if early_return || id > MAXIMUM_PLAYER_ID {
             return true;
         }
 
